@@ -378,6 +378,11 @@ class Solver:
             )
         func = None
         monitor_mapping = None
+        # start from a clean working state: a previous solve() that raised (inconsistent
+        # sweep lengths, singular merge, ...) never reached the clean-up at the end
+        self.param_dic = {}
+        for st in self.structures:
+            st.reset()
         self.update_params(kwargs)
         ns = 1
         for par, value in self.param_dic.items():
